@@ -48,7 +48,7 @@ func init() {
 			"the page is parsed with the HTML5 algorithm: DOM skeleton equal to the benign page of the same build, one POST form whose action is the flow's endpoint (as URL), message field decoding to exactly the document, RelayState present iff given and equal modulo HTML newline normalisation; the submitted document is re-verified at the IdP; distinct = shape hash (builder sequence, relay classes, signed, outcome)",
 		Directed:    c16Directed,
 		Run:         c16Run,
-		MustHit:     []string{"builder=BuildAuthBodyPost", "builder=BuildAuthBodyPostFromDocument", "builder=BuildLogoutBodyPostFromDocument", "builder=BuildLogoutResponseBodyPostFromDocument", "relay_absent", "relay_hostile", "relay_absent_then_present", "relay_present_then_absent", "signed", "unsigned"},
+		MustHit:     []string{"builder=BuildAuthBodyPost", "builder=BuildAuthBodyPostFromDocument", "builder=BuildLogoutBodyPostFromDocument", "builder=BuildLogoutResponseBodyPostFromDocument", "relay_absent", "relay_hostile", "relay_absent_then_present", "relay_present_then_absent", "signed", "unsigned", "endpoint_reassigned_between_document_and_form"},
 		RandomRuns:  map[string]int{"quick": 5000, "thorough": 50000},
 		Assumptions: []string{"NUL and invalid UTF-8 are excluded from relay states (HTML cannot carry them); CR and CRLF compare equal to LF, as the HTML input-stream preprocessing prescribes"},
 	})
@@ -80,10 +80,14 @@ func c16Run(r *core.Run) {
 	type plan struct {
 		builder, relay string
 		signed         bool
+		reconf         bool // the application re-assigns the IdP endpoint between building the document and building the form
 	}
 	var plans []plan
 	for i := 0; i < 4; i++ {
-		plans = append(plans, plan{postBuilders[t.Int(4, "c16.builder")], relayPool[t.Int(len(relayPool), "c16.relay")], t.Bool("c16.signed")})
+		plans = append(plans, plan{postBuilders[t.Int(4, "c16.builder")], relayPool[t.Int(len(relayPool), "c16.relay")], t.Bool("c16.signed"), false})
+	}
+	for i := range plans {
+		plans[i].reconf = t.Int(4, "c16.reconf") == 1
 	}
 	o := DrawOut(r, 0, true)
 	if !o.PreHistory(r) || !o.Build() {
@@ -113,6 +117,10 @@ func c16Run(r *core.Run) {
 			r.Probe("signed")
 		} else {
 			r.Probe("unsigned")
+		}
+		c16Reconf = plans[call].reconf
+		if c16Reconf && builder != "BuildAuthBodyPost" {
+			r.Fault("endpoint_reassigned_between_document_and_form")
 		}
 		page, docBytes, endpoint, field, kind, out := c16Produce(r, o, builder, relay, signed)
 		r.Steps++
@@ -212,6 +220,14 @@ func c16Run(r *core.Run) {
 	r.Sample = obs("sequence", seq, "key_config", o.KeyCfg())
 }
 
+// c16Reconf: see plan.reconf (set per call by c16Run).
+var c16Reconf bool
+
+// c16Moved is the endpoint the application switches to (IdP metadata refresh).
+func c16Moved(u string) string {
+	return strings.Replace(u, "https://idp.example", "https://idp-new.example", 1)
+}
+
 func sameURL(a, b string) bool {
 	ua, e1 := url.Parse(a)
 	ub, e2 := url.Parse(b)
@@ -246,6 +262,11 @@ func c16Produce(r *core.Run, o *Out, builder, relay string, signed bool) (page, 
 			if err != nil {
 				return err
 			}
+			if c16Reconf {
+				endpoint = c16Moved(endpoint)
+				sp.IdentityProviderSSOURL = endpoint
+				defer func() { sp.IdentityProviderSSOURL = o.Cfg.IdPSSOURL }()
+			}
 			page, err = sp.BuildAuthBodyPostFromDocument(relay, d)
 		case "BuildLogoutBodyPostFromDocument":
 			kind, endpoint = "LogoutRequest", o.Cfg.IdPSLOURL
@@ -257,6 +278,11 @@ func c16Produce(r *core.Run, o *Out, builder, relay string, signed bool) (page, 
 			if err != nil {
 				return err
 			}
+			if c16Reconf {
+				endpoint = c16Moved(endpoint)
+				sp.IdentityProviderSLOURL = endpoint
+				defer func() { sp.IdentityProviderSLOURL = o.Cfg.IdPSLOURL }()
+			}
 			page, err = sp.BuildLogoutBodyPostFromDocument(relay, d)
 		default:
 			kind, endpoint, field = "LogoutResponse", o.Cfg.IdPSLOURL, "SAMLResponse"
@@ -267,6 +293,11 @@ func c16Produce(r *core.Run, o *Out, builder, relay string, signed bool) (page, 
 			}
 			if err != nil {
 				return err
+			}
+			if c16Reconf {
+				endpoint = c16Moved(endpoint)
+				sp.IdentityProviderSLOURL = endpoint
+				defer func() { sp.IdentityProviderSLOURL = o.Cfg.IdPSLOURL }()
 			}
 			page, err = sp.BuildLogoutResponseBodyPostFromDocument(relay, d)
 		}
